@@ -90,7 +90,7 @@ m('padding-partial-read', 'C05', 'IO-COUNT', 'src/xz/reader.rs',
 m('delta-partial-count', 'C05', 'IO-COUNT', 'src/filter/delta.rs',
   '        self.inner.write_all(&self.buffer[..data_size])?;\n        Ok(data_size)', '        self.inner.write(&self.buffer[..data_size])', 'DeltaWriter as Write>::write:write')
 m('bcj-write-dropped', 'C05', 'IO-COUNT', 'src/filter/bcj.rs', 'self.inner.write_all(&self.buffer[..filtered_size])?;', 'self.inner.write(&self.buffer[..filtered_size])?;', 'BCJWriter as Write>::write:write')
-m('zero-read-unguarded', 'C07', 'ZERO-READ', 'src/xz/reader.rs', '        if buf.is_empty() || self.finished {', '        if self.finished {', 'XZReader as Read>::read:zero-count-mutates-self')
+m('zero-read-unguarded', 'C07', 'ZERO-READ', 'src/xz/reader.rs', '        if buf.is_empty() || self.finished {', '        if self.finished {', 'XZReader::read_blocks:zero-count-mutates-self')
 m('prepare-partial-read', 'C16', 'EXACT-READ', 'src/range_dec.rs', None, None, 'prepare')
 m('multistream-unguarded', 'C16', 'MULTISTREAM-GUARD', 'src/xz/reader.rs', 'if self.allow_multiple_streams && self.try_start_next_stream()? {', 'if self.try_start_next_stream()? {', 'after-footer:try_start_next_stream')
 # ---- C06
@@ -155,8 +155,8 @@ m('xz-trailing-padding-unchecked', 'C12', 'STREAM-RESET', 'src/xz/reader.rs',
   '                return Ok(false);', 'trailing-padding-multiple-of-4')
 m('mt-sink-error-not-sticky', 'C09', 'SINK-ERR-STICKY', 'src/enc/lzma2_writer_mt.rs', '            self.state = State::Error;\n            let error = io::Error::new(error.kind(), error.to_string());', '            let error = io::Error::new(error.kind(), error.to_string());', 'LZMA2WriterMT::write_to_sink:sink-write_all')
 m('lzipmt-scan-break', 'C04', 'SCAN-TO-ZERO', 'src/lzip/reader_mt.rs',
-  '                // Too short for a member: this is not the start of the file\'s first member.\n                self.inner = Some(reader);\n                return Err(error_invalid_data(\n                    "unexpected data before the first LZIP member",\n                ));',
-  '                break;', 'LZIPReaderMT::scan_members:scan-of-current_pos')
+  '                if current_pos < TRAILER_SIZE as u64 {\n                    // Too short for a member: this is not the start of the file\'s first member.\n                    continue \'search;',
+  '                if current_pos < TRAILER_SIZE as u64 {\n                    // Too short for a member: this is not the start of the file\'s first member.\n                    break;', 'LZIPReaderMT::scan_members:scan-of-current_pos')
 m('lzma2-window-empty', 'C06', 'WINDOW-ALIGN', 'src/lzma2_reader.rs', '(dict_size.max(4096) as u64 + 15) & !15', '(dict_size as u64 + 15) & !15', 'LZMA2Reader::new:window-not-empty')
 m('preset-window-shrunk', 'C01', 'WINDOW-PRESET', 'src/lzma_reader.rs', 'if !has_preset && uncomp_size', 'if uncomp_size', 'LZMAReader::construct2:window-keeps-preset')
 m('asm-dispatch-unguarded', 'C14', 'ASM-DISPATCH', 'src/range_dec.rs',
@@ -215,15 +215,17 @@ m('bcj2-exhausted-input-is-eof', 'C05', 'OWED-OUTPUT', 'src/filter/bcj2.rs',
                 }
 """, "", '<BCJ2Reader as Read>::read:input-end-with-output-owed-is-not-Ok')
 m('lzipmt-scan-from-raw-end', 'C08', 'TRAILING-SKIP', 'src/lzip/reader_mt.rs',
-  """        let mut current_pos = match Self::find_last_member_end(&mut reader, file_size) {
-            Ok(end) => end,
-            Err(error) => {
-                self.inner = Some(reader);
-                return Err(error);
-            }
-        };
-""", """        let mut current_pos = file_size;
+  """            let mut current_pos =
+                match Self::find_last_member_end(&mut reader, file_size, search_end) {
+                    Ok(end) => end,
+                    Err(error) => {
+                        self.inner = Some(reader);
+                        return Err(error);
+                    }
+                };
+""", """            let mut current_pos = search_end;
 """, 'LZIPReaderMT::scan_members:trailing-data-skipped-like-the-single-threaded-reader')
+m('lzipmt-stale-members-kept', 'C04', 'SCAN-TO-ZERO', 'src/lzip/reader_mt.rs', "            self.members.clear();\n\n            while current_pos > 0 {", "            while current_pos > 0 {", 'LZIPReaderMT::scan_members:scan-of-current_pos')
 m('ppc-scan-skips-last-slot', 'C11', 'SCAN-COVERAGE', 'src/filter/bcj/ppc.rs', '        while i <= end {', '        while i < end {', 'BCJFilter::ppc_code:last-slot-scanned')
 m('deltawriter-flush-shortcut', 'C05', 'FLUSH-FORWARD', 'src/filter/delta.rs', """    fn flush(&mut self) -> crate::Result<()> {
         self.inner.flush()""", """    fn flush(&mut self) -> crate::Result<()> {
